@@ -469,3 +469,65 @@ pub assume_specification<'a> [str::char_indices] (s: &'a str) -> (r: std::str::C
         IteratorSpec::decrease(&r) is Some,
 ;
 } // verus!
+verus! {
+// ------------------------------------------------------------------ character offsets (proved from vstd::utf8)
+pub proof fn lemma_char_pos_mono(c: Seq<char>, i: int, j: int)
+    requires 0 <= i <= j <= c.len(),
+    ensures char_byte_pos(c, i) <= char_byte_pos(c, j) <= encode_utf8(c).len(),
+            char_byte_pos(c, c.len() as int) == encode_utf8(c).len(), char_byte_pos(c, 0) == 0,
+            i < j ==> char_byte_pos(c, i) < char_byte_pos(c, j),
+{
+    assert(c.take(j) =~= c.take(i) + c.subrange(i, j));
+    encode_utf8_concat(c.take(i), c.subrange(i, j));
+    assert(c =~= c.take(j) + c.subrange(j, c.len() as int));
+    encode_utf8_concat(c.take(j), c.subrange(j, c.len() as int));
+    assert(c.take(c.len() as int) =~= c);
+    assert(c.take(0) =~= Seq::<char>::empty());
+    assert(encode_utf8(Seq::<char>::empty()).len() == 0) by { reveal_with_fuel(encode_utf8, 2); }
+    if i < j {
+        lemma_encode_nonempty(c.subrange(i, j));
+    }
+}
+pub proof fn lemma_encode_nonempty(c: Seq<char>)
+    requires c.len() > 0,
+    ensures encode_utf8(c).len() >= c.len(),
+    decreases c.len(),
+{
+    assert(c =~= seq![c[0]] + c.drop_first());
+    encode_utf8_concat(seq![c[0]], c.drop_first());
+    lemma_encode_one(c[0]);
+    if c.len() > 1 { lemma_encode_nonempty(c.drop_first()); }
+    else {
+        assert(c.drop_first() =~= Seq::<char>::empty());
+    }
+}
+pub proof fn lemma_encode_one(ch: char)
+    ensures encode_utf8(seq![ch]).len() >= 1,
+{
+    reveal_with_fuel(encode_utf8, 3);
+    assert(seq![ch].drop_first() =~= Seq::<char>::empty());
+}
+/// the byte offset of every character (and the end) is a character boundary
+pub proof fn lemma_char_pos_boundary(c: Seq<char>, i: int)
+    requires 0 <= i <= c.len(),
+    ensures is_char_boundary(encode_utf8(c), char_byte_pos(c, i)),
+{
+    let a = c.take(i);
+    let b = c.subrange(i, c.len() as int);
+    assert(c =~= a + b);
+    encode_utf8_concat(a, b);
+    encode_utf8_valid_utf8(c);
+    encode_utf8_valid_utf8(b);
+    let bytes = encode_utf8(c);
+    let n = encode_utf8(a).len() as int;
+    if n == bytes.len() || n == 0 {
+        is_char_boundary_start_end_of_seq(bytes);
+    } else {
+        let eb = encode_utf8(b);
+        is_char_boundary_start_end_of_seq(eb);
+        is_char_boundary_iff_not_is_continuation_byte(eb, 0);
+        assert(bytes[n] == eb[0]);
+        is_char_boundary_iff_not_is_continuation_byte(bytes, n);
+    }
+}
+} // verus!
